@@ -116,10 +116,35 @@ PROPS["C18"] = dict(
                 "get_stats consistency, cov->cor->cov round trip.",
     limit_quick=60)
 
+PROPS["C11"] = dict(
+    level="proof", needs_ext=True,
+    technique="contract-based deductive verification of the C core (clang AST front end), the C wrappers and the Python dispatchers "
+              "against Hogg (1999) over the reals (own VC generator, z3 incl. nonlinear real arithmetic); truncation error and "
+              "rounding covered by a labelled bounded stand-in",
+    level_text="cosmolib.c (ez_inverse, ez_inverse_integral, Dc, Dm, Da, Dl, dV, V, scinv) is verified function by function against "
+               "spec functions transcribed from Hogg (1999): 1/E(z), the documented 5- and 10-point Gauss-Legendre sums, the sinh/"
+               "sin/flat transverse distance, Da=Dm/(1+z), Dl=Dm(1+z), Dm=Dc when flat, Dc(a,b)=-Dc(b,a) (from node/weight symmetry), "
+               "zero inverse critical density for sources at or in front of the lens; division and sqrt safety follow from the struct "
+               "invariant. All 26 Python-visible C wrappers (scalar, vec1, vec2, 2vec) are verified to return element-for-element "
+               "the scalar definition, and the five Python dispatchers (Dc, Dm, Da, Dl, sigmacritinv) are verified across the Python/C "
+               "boundary for the four scalar/array combinations, including rejection of mismatched lengths. extract_parms is verified "
+               "against the documented normalisation rules and shown to produce a normal form (re-normalising changes nothing).",
+    level_note="Trusted: esvc (incl. the C front end and API stub headers), z3, clang; floats are reals; sqrt/sinh/sin are uninterpreted "
+               "with sqrt's defining axioms; the struct invariant CosmoInv (flat in {0,1}, flat <=> omega_k == 0, tcfac == sqrt(|omega_k|)/DH, "
+               "mirrored Gauss-Legendre nodes/weights) is assumed at every entry point - it is what cosmo_new/gauleg establish from "
+               "extract_parms' output, but cosmo_new itself (calloc, pointer outputs) is not under contract; definedness of 1/E at the "
+               "quadrature nodes is a stated precondition (holds for physical parameters); the physical constants are not checked; "
+               "numpy.asarray(dtype='f8', order='C') conversion of lists/strided/non-float inputs is an assumed contract checked bounded; "
+               "the magnitude of the quadrature truncation error is bounded only (comparison with adaptive quadrature).",
+    explanation="Proved: 10 C core contracts, 26 wrapper contracts, 20 dispatcher contracts, extract_parms. Bounded (labelled): every "
+                "quantity against adaptive quadrature with the statement's 1.5x truncation-error allowance, identities to rounding, "
+                "array variants (f4/f8/i8/list/strided/byte-swapped) element-for-element, copies / deep copies / pickles.",
+    limit_quick=90)
+
 for _k in range(1, 21):
     PROPS.setdefault("C%02d" % _k, dict(level="other", needs_ext=True, explanation="see DESIGN.md section 8"))
 
 
-CLAIMED = {"C20", "C02", "C05", "C06", "C16", "C18"}
+CLAIMED = {"C20", "C02", "C05", "C06", "C16", "C18", "C11"}
 NOT_APPLICABLE = {("C%02d" % k): "check not built yet (implementation in progress; plan in DESIGN.md section 8)"
                   for k in range(1, 21) if ("C%02d" % k) not in CLAIMED}
